@@ -1136,16 +1136,20 @@ def tril(m, *args, **kwargs):
 
 @implements(np.einsum)
 def einsum(*operands, out=None, **kwargs):
-    subscripts, *operands = operands
+    if isinstance(operands[0], str):
+        arrays = operands[1:]
+    else:
+        # sublist form: einsum(op0, sublist0, op1, sublist1, ..., [sublistout])
+        arrays = operands[0 : len(operands) - len(operands) % 2 : 2]
     # every term of the result is a product of one element of each operand
-    ret_units = np.prod(get_units(operands))
+    ret_units = np.prod(get_units(arrays))
 
     if out is not None:
         out_view = np.asarray(out)
     else:
         out_view = out
 
-    res = np.einsum._implementation(subscripts, *operands, out=out_view)
+    res = np.einsum._implementation(*operands, out=out_view, **kwargs)
 
     if getattr(out, "units", None) is not None:
         out.units = ret_units
